@@ -93,6 +93,15 @@ impl<'a> GeneratorState<'a> {
                             },
                             _ => { return Err(self.compiler_state.compiler_error("Arithmetics is partially implemented", pos)); },
                         };
+                        if !high_byte {
+                            // No instruction is generated: the carry that the high byte pass needs
+                            // is known right now
+                            self.low_byte_folded = match op {
+                                Operation::Add(_) => Some((l & 0xff) + (r & 0xff) > 0xff),
+                                Operation::Sub(_) => Some((l & 0xff) >= (r & 0xff)),
+                                _ => None,
+                            };
+                        }
                         return match folded {
                             Some(v) => Ok(ExprType::Immediate(v)),
                             None => Err(self.compiler_state.syntax_error("Constant expression overflow", pos)),
@@ -214,9 +223,13 @@ impl<'a> GeneratorState<'a> {
         self.acc_in_use = true;
         let operation = match op {
             Operation::Add(_) => {
+                // The low byte pass may have been folded to a constant: its carry is set by hand
                 if !high_byte {
                     self.sasm(CLC)?;
+                } else if let Some(carry) = self.low_byte_folded {
+                    self.sasm(if carry { SEC } else { CLC })?;
                 }
+                self.low_byte_folded = None;
                 self.carry_flag_ok = false;
                 // Carry propagation error detection
                 if self.carry_propagation_error && high_byte {
@@ -228,7 +241,10 @@ impl<'a> GeneratorState<'a> {
             Operation::Sub(_) => {
                 if !high_byte {
                     self.sasm(SEC)?;
+                } else if let Some(carry) = self.low_byte_folded {
+                    self.sasm(if carry { SEC } else { CLC })?;
                 }
+                self.low_byte_folded = None;
                 self.carry_flag_ok = true;
                 // Carry propagation error detection
                 if self.carry_propagation_error && high_byte {
